@@ -658,16 +658,27 @@ func (in *Interp) exec(fr *frame, ins ssa.Instruction) {
 		}
 		in.unsupported("go statement")
 	case *ssa.Select:
-		in.unsupported("select")
+		if !in.chanModel() {
+			in.unsupported("select")
+		}
+		in.set(fr, x, in.doSelect(fr, x))
 	case *ssa.Send:
-		in.unsupported("channel send")
+		if !in.chanModel() {
+			in.unsupported("channel send")
+		}
+		ch, _ := in.get(fr, x.Chan).(*ChanV)
+		in.chanSend(ch, in.get(fr, x.X))
 	case *ssa.MakeChan:
 		if in.inInit > 0 {
 			in.set(fr, x, &ChanV{})
 			break
 		}
 		in.uidSeq++
-		in.set(fr, x, &ChanV{id: in.uidSeq})
+		c := &ChanV{id: in.uidSeq}
+		if sz, ok := in.get(fr, x.Size).(*Term); ok && sz.IsConst() {
+			c.cap = int(sext64(sz.Val, sz.Sort.W))
+		}
+		in.set(fr, x, c)
 	default:
 		in.unsupported(fmt.Sprintf("instruction %T", ins))
 	}
@@ -702,6 +713,18 @@ func (in *Interp) unop(fr *frame, x *ssa.UnOp) Value {
 	case token.XOR:
 		return ts.BvNot(v.(*Term))
 	case token.ARROW:
+		if in.chanModel() {
+			ch, _ := v.(*ChanV)
+			et := x.Type()
+			if x.CommaOk {
+				et = x.Type().(*types.Tuple).At(0).Type()
+			}
+			val, ok := in.chanRecv(ch, et)
+			if x.CommaOk {
+				return TupleV{val, in.ts.Bool(ok)}
+			}
+			return val
+		}
 		if _, ok := in.eng.cfg.Params["GOSTUB"]; ok {
 			in.stub("channel receive: returns the zero value immediately (timers/goroutines are not modelled)")
 			if x.CommaOk {
@@ -1265,7 +1288,10 @@ func (in *Interp) builtin(b *ssa.Builtin, args []Value, cc *ssa.CallCommon, site
 			at := under(cc.Args[0].Type().(*types.Pointer).Elem()).(*types.Array)
 			return ts.Const(64, uint64(at.Len()))
 		case *ChanV:
-			return ts.Const(64, 0)
+			if x == nil {
+				return ts.Const(64, 0)
+			}
+			return ts.Const(64, uint64(len(x.q)))
 		}
 	case "cap":
 		switch x := args[0].(type) {
@@ -1393,3 +1419,105 @@ func (in *Interp) builtin(b *ssa.Builtin, args []Value, cc *ssa.CallCommon, site
 }
 
 var _ = big.NewInt
+
+// ---- sequential channel model (parameter CHANMODEL) ----
+// A channel is a FIFO of at most cap values. There is no second goroutine: a
+// send without room, a receive from an empty open channel and a blocking
+// select without a ready case end the path as "blocked" (the harness decides
+// whether that is acceptable with -allow). A select with several ready cases
+// forks on a fresh scheduler choice.
+
+func (in *Interp) chanModel() bool {
+	_, ok := in.eng.cfg.Params["CHANMODEL"]
+	return ok
+}
+
+func (in *Interp) chanSend(ch *ChanV, v Value) {
+	if ch == nil {
+		in.end("blocked", "send on nil channel")
+	}
+	if ch.closed {
+		in.end("panic", "send on closed channel")
+	}
+	if len(ch.q) >= ch.cap {
+		in.end("blocked", "send on a channel without room (no concurrent receiver in the sequential model)")
+	}
+	ch.q = append(ch.q, in.copyVal(v))
+	in.events = append(in.events, "chan-send")
+}
+
+func (in *Interp) chanRecv(ch *ChanV, et types.Type) (Value, bool) {
+	if ch == nil {
+		in.end("blocked", "receive from nil channel")
+	}
+	if len(ch.q) > 0 {
+		v := ch.q[0]
+		ch.q = ch.q[1:]
+		return v, true
+	}
+	if ch.closed {
+		return in.zero(et), false
+	}
+	in.end("blocked", "receive from an empty channel (no concurrent sender in the sequential model)")
+	return nil, false
+}
+
+func (in *Interp) doSelect(fr *frame, x *ssa.Select) Value {
+	ts := in.ts
+	var ready []int
+	chans := make([]*ChanV, len(x.States))
+	for i, st := range x.States {
+		ch, _ := in.get(fr, st.Chan).(*ChanV)
+		chans[i] = ch
+		if ch == nil {
+			continue
+		}
+		if st.Dir == types.RecvOnly {
+			if len(ch.q) > 0 || ch.closed {
+				ready = append(ready, i)
+			}
+		} else if ch.closed || len(ch.q) < ch.cap {
+			ready = append(ready, i)
+		}
+	}
+	idx := -1
+	switch {
+	case len(ready) == 0:
+		if x.Blocking {
+			in.end("blocked", "select: no case ready")
+		}
+	case len(ready) == 1:
+		idx = ready[0]
+	default:
+		k := in.freshVar("select.choice", BV(64))
+		alts := make([]*Term, len(ready))
+		for j := range ready {
+			alts[j] = ts.Eq(k, ts.Const(64, uint64(j)))
+		}
+		in.stub("select with several ready cases: forks on a scheduler choice")
+		idx = ready[in.fork(alts, "select choice")]
+	}
+	tup := x.Type().(*types.Tuple)
+	res := make(TupleV, tup.Len())
+	res[0] = ts.Const(64, uint64(int64(idx)))
+	res[1] = ts.Bool(false)
+	r := 2
+	for i, st := range x.States {
+		if st.Dir != types.RecvOnly {
+			if i == idx {
+				in.chanSend(chans[i], in.get(fr, st.Send))
+			}
+			continue
+		}
+		et := tup.At(r).Type()
+		if i == idx {
+			v, ok := in.chanRecv(chans[i], et)
+			res[r] = v
+			res[1] = ts.Bool(ok)
+		} else {
+			res[r] = in.zero(et)
+		}
+		r++
+	}
+	return res
+}
